@@ -1,14 +1,14 @@
 (** C30/Corr.v — executable comparison of the real server's quiescent observations with what
     [published_converge] predicts: a file the analysis holds has "last published = fresh diagnosis",
     a file the analysis does not hold has an empty (or no) last published set. *)
-From Coq Require Import List Arith Bool PeanoNat.
+From Coq Require Import List Arith Bool PeanoNat NArith.
 Import ListNotations.
 
 Record obs := {
   o_known : bool;            (* the analysis holds the file *)
   o_open_is_current : bool;  (* the analysed text is the editor's latest text (otherwise C27/C29, not C30) *)
-  o_published : option nat;  (* number of items of the last publishDiagnostics, None = never published *)
-  o_fresh : option nat;      (* number of items of a fresh diagnosis *)
+  o_published : option N;  (* number of items of the last publishDiagnostics, None = never published *)
+  o_fresh : option N;      (* number of items of a fresh diagnosis *)
   o_same : bool              (* last published = fresh diagnosis, item by item *)
 }.
 
@@ -19,9 +19,9 @@ Definition check_obs (o : obs) : bool :=
     negb (o_open_is_current o) ||
     match o_published o with
     | Some _ => o_same o
-    | None => match o_fresh o with Some 0 => true | None => true | Some _ => false end
+    | None => match o_fresh o with Some 0%N => true | None => true | Some _ => false end
     end
   else
-    match o_published o with None => true | Some 0 => true | Some _ => false end.
+    match o_published o with None => true | Some 0%N => true | Some _ => false end.
 
 Definition check_case (c : case) : bool := forallb check_obs c.
